@@ -595,7 +595,50 @@ func genStorePlan(seed uint64, tier string) *Plan {
 	if tier == "thorough" {
 		maxOps = 12
 	}
-	for c := 0; c < nc; c++ {
+	// One run in four is about several watchers of ONE record (wave 5): every client reads the record (so that it can be
+	// named, and updated from a read version), most of them watch it by id, and the tail of each script mixes updates of
+	// that record with stops / cancels of the client's own watch and new watches. What is checked is unchanged: after the
+	// cancels every surviving watcher must still be shown the record's latest state.
+	idwatch := g.chance(1, 4)
+	focus := g.pick(nk)
+	if idwatch {
+		p.Profile += "+idwatch"
+	}
+	for c := 0; c < nc && idwatch; c++ {
+		ops := []SOp{{Op: "create", Key: focus}, {Op: "get", Key: focus}}
+		nw := 0
+		if c == 0 || g.chance(3, 4) {
+			ops = append(ops, SOp{Op: "watch", Key: focus, Replay: g.chance(1, 2)})
+			nw++
+		}
+		n := 3 + g.pick(maxOps-2)
+		for i := 0; i < n; i++ {
+			switch x := g.pick(20); {
+			case x < 7:
+				ops = append(ops, SOp{Op: "update", Key: focus})
+			case x < 10:
+				ops = append(ops, SOp{Op: "status", Key: focus})
+			case x < 13:
+				ops = append(ops, SOp{Op: "get", Key: focus})
+			case x < 15:
+				ops = append(ops, SOp{Op: "watch", Key: focus, Replay: g.chance(1, 2)})
+				nw++
+			case x < 16:
+				ops = append(ops, SOp{Op: "watch", Key: -1, Replay: g.chance(1, 2)})
+				nw++
+			case x < 17:
+				if nw > 0 {
+					ops = append(ops, SOp{Op: "stop", W: g.pick(nw)})
+				}
+			default:
+				if nw > 0 {
+					ops = append(ops, SOp{Op: "cancel", W: g.pick(nw)})
+				}
+			}
+		}
+		sp.Clients = append(sp.Clients, ops)
+	}
+	for c := 0; c < nc && !idwatch; c++ {
 		var ops []SOp
 		n := 3 + g.pick(maxOps-2)
 		nw := 0
